@@ -119,7 +119,7 @@ def _chk_flat(args, res, old):
                 k, res[k], r.chromosome, cls, old["male_ref"], old["par"], want)
 
 
-contract("cnvlib/cnary.py::CopyNumArray.expect_flat_log2", params=dict(cnarr=ObjT("CopyNumArray")), bounded=True,
+contract("cnvlib/cnary.py::CopyNumArray.expect_flat_log2#rt", params=dict(cnarr=ObjT("CopyNumArray")), bounded=True,
          gen=_gen_flat, call=lambda fn, a: a["cnarr"].expect_flat_log2(a["male_ref"], a["par"]),
          props=("C15", "C05"), checks=[("zero_auto_minus_one_y_x_if_male_ref", _chk_flat)])
 
@@ -141,7 +141,7 @@ def _chk_shift(args, res, old):
                 old["male_ref"], old["is_xx"], b.chromosome, b.log2, a.log2, want)
 
 
-contract("cnvlib/cnary.py::CopyNumArray.shift_xx", params=dict(cnarr=ObjT("CopyNumArray")), bounded=True,
+contract("cnvlib/cnary.py::CopyNumArray.shift_xx#rt", params=dict(cnarr=ObjT("CopyNumArray")), bounded=True,
          gen=_gen_flat, call=lambda fn, a: a["cnarr"].shift_xx(a["male_ref"], a["is_xx"], None),
          props=("C15",), checks=[("x_to_autosomal_level", _chk_shift)])
 
@@ -210,3 +210,52 @@ def _chk_sex(args, res, old):
 contract("prop::C15.sex_inference", params=dict(cnarr=ObjT("CopyNumArray")), bounded=True, gen=_gen_sex, call=_call_sex,
          props=("C15",), checks=[("sex_recovered_and_x_levelled", _chk_sex)],
          notes="a statistical claim over noise realisations (Mood's median test): only the bounded stand-in speaks about it")
+
+
+# ----------------------------------------------------------------------------- deductive: flat expectation and X shift
+from .c_call import CNA, BUILD, CHROM, GENE      # noqa: E402
+
+_CLS_S = ("cls_of(self.data.chromosome[k], self.data.start[k], self.data.end[k], xlabel_of(self.data.chromosome[0]), "
+          "ylabel_of(self.data.chromosome[0]), par_of(diploid_parx_genome))")
+
+contract(
+    "cnvlib/cnary.py::CopyNumArray.expect_flat_log2",
+    params=dict(self=CNA(), is_haploid_x_reference=Bool, diploid_parx_genome=BUILD),
+    returns=VecT(NReal),
+    requires=[],
+    ensures=[
+        ("rowcount", "len(result) == len(self.data)"),
+        # autosomes 0; Y -1; X -1 only for a male reference; PAR-X counts as autosomal under a diploid-PAR genome;
+        # PAR-Y is left unspecified by the statement (class 4 is excluded here)
+        ("flat_levels", "forall(0, len(result), lambda k: implies(CLS != 4, not isnull(result[k]) and val(result[k]) == "
+                        "ite(CLS == 2 or (CLS == 1 and is_haploid_x_reference), -1, 0)))".replace("CLS", _CLS_S)),
+    ],
+    ghost=dict(frame_exempt_keys=("chr_x", "chr_y")),
+    props=("C15", "C05"),
+    domain="skip",
+    canaries=[("y_forgotten_male_ref", "idx = self.chr_x_filter(diploid_parx_genome).values | (self.chr_y_filter(diploid_parx_genome)).values",
+               "idx = self.chr_x_filter(diploid_parx_genome).values"),
+              ("wrong_level", "cvg[idx] = -1.0", "cvg[idx] = 1.0")],
+)
+
+contract(
+    "cnvlib/cnary.py::CopyNumArray.shift_xx",
+    params=dict(self=CNA(), is_haploid_x_reference=Bool, is_xx=Bool, diploid_parx_genome=Lit(None)),
+    returns=CNA(),
+    requires=[],
+    ensures=[
+        ("rowcount", "len(result.data) == len(self.data)"),
+        ("x_shift", "forall(0, len(result.data), lambda k: isnull(result.data.log2[k]) == isnull(self.data.log2[k]) and "
+                    "implies(not isnull(self.data.log2[k]), val(result.data.log2[k]) == val(self.data.log2[k]) + "
+                    "ite(self.data.chromosome[k] == xlabel_of(self.data.chromosome[0]), "
+                    "ite(is_xx and is_haploid_x_reference, -1, ite(not is_xx and not is_haploid_x_reference, 1, 0)), 0)))"),
+        ("other_columns", "forall(0, len(result.data), lambda k: result.data.chromosome[k] == self.data.chromosome[k] and "
+                          "result.data.start[k] == self.data.start[k] and result.data.end[k] == self.data.end[k] and "
+                          "result.data.gene[k] == self.data.gene[k])"),
+    ],
+    ghost=dict(frame_exempt_keys=("chr_x", "chr_y")),
+    props=("C15", "C10"),
+    domain="skip",
+    canaries=[("returns_self", "outprobes = self.copy()", "outprobes = self"),
+              ("wrong_sign", '"log2"] -= 1.0', '"log2"] += 1.0')],
+)
